@@ -5,3 +5,5 @@ mod entity;
 mod chunk;
 mod layout;
 mod bit;
+#[cfg(ishape_rust_itree_verif)]
+mod verif;
